@@ -309,6 +309,105 @@ class RobustDriver(hlib.Driver):
         raise RuntimeError(f"model driver unusable: {last}")
 
 
+# ------------------------------------------------------------------------------------------------ order experiment (fresh interpreters)
+def enc_json(v):
+    if isinstance(v, (bytes, bytearray)):
+        return {"__b": bytes(v).hex()}
+    if isinstance(v, dict):
+        return {"__d": [[k, enc_json(x)] for k, x in v.items()]}
+    if isinstance(v, list):
+        return [enc_json(x) for x in v]
+    return v
+
+
+def dec_json(v):
+    if isinstance(v, dict):
+        if "__b" in v:
+            return bytes.fromhex(v["__b"])
+        return {k: dec_json(x) for k, x in v["__d"]}
+    if isinstance(v, list):
+        return [dec_json(x) for x in v]
+    return v
+
+
+def norm_value(value, node):
+    """the library's own reading of a plain value (one-element lists and one-byte binaries read back as the scalar)"""
+    if isinstance(node, V.List):
+        return {k: norm_value(value[k], x) for k, x in node.data.items()}
+    if isinstance(node, V.Array):
+        el = vfunctions.generate(node.item_decriptor)
+        return [norm_value(v, el) for v in value]
+    if isinstance(value, list) and len(value) == 1 and not isinstance(value[0], (list, dict)):
+        return value[0]
+    if isinstance(value, (bytes, bytearray)) and len(value) == 1:
+        return value[0]
+    return value
+
+
+def limited_text_count(leaf):
+    """the length limit of a leaf that takes text (or, for a fixed Binary, bytes) and is length-limited; else None"""
+    cls = type(leaf)
+    if cls.__count__ is None or cls.__count__ <= 0:
+        return None
+    if cls.__type__ is V.Dynamic:
+        return cls.__count__ if V.String in cls.__allowedtypes__ else None
+    return cls.__count__ if cls.__type__ in (V.String, V.Binary) else None
+
+
+def boundary_value(node, variant: int, salt: str):
+    """a plain value of the structure whose length-limited text/binary leaves have length count (0), count-1 (1) or count+1 (2)"""
+    if isinstance(node, V.List):
+        return {k: boundary_value(x, variant, salt + k) for k, x in node.data.items()}
+    if isinstance(node, V.Array):
+        el = vfunctions.generate(node.item_decriptor)
+        return [boundary_value(el, variant, salt + str(i)) for i in range(1 + variant % 2)]
+    cls = type(node)
+    lim = limited_text_count(node)
+    if lim is not None:
+        n = max(lim + (0, -1, 1)[variant], 0)
+        ch = chr(65 + sum(map(ord, salt + cls.__name__)) % 26)
+        if cls.__type__ is V.Binary:
+            return (ch * n).encode("ascii")
+        return ch * n
+    types = [t.__name__ for t in cls.__allowedtypes__] if cls.__type__ is V.Dynamic else [cls.__type__.__name__]
+    for t in types:
+        if t in INT_TYPES:
+            return 1
+    if "String" in types:
+        return "x" + cls.__name__.lower()
+    if "Boolean" in types:
+        return True
+    if "F8" in types or "F4" in types:
+        return 1.5
+    return b"\x01\x02" if cls.__count__ != 1 else b"\x07"
+
+
+def order_worker(jobfile: str, outfile: str):
+    """fresh interpreter: read back (and round-trip) the given values function by function IN THE GIVEN ORDER"""
+    job = json.load(open(jobfile))
+    sf = StreamsFunctions()
+    out = []
+    for name in job["order"]:
+        cls = getattr(fmod, name)
+        for variant, enc in job["values"][name]:
+            value = dec_json(enc)
+            try:
+                obj = cls(value)
+            except Exception as exc:  # noqa: BLE001
+                out.append([name, variant, "constructor raises " + type(exc).__name__])
+                continue
+            got = obj.get()
+            st = "read back unchanged" if py_equal(got, norm_value(value, obj.data)) else "read back CHANGED: " + json.dumps(canon(got))[:300]
+            try:
+                body = obj.encode()
+                back = sf.decode(secsgem.hsms.HsmsMessage(secsgem.hsms.HsmsStreamFunctionHeader(9, cls._stream, cls._function, False, 0), body))
+                st += "; wire " + ("ok" if type(back) is cls and same(back.get(), expected_after_wire(obj.data)) else "DIFFERS") + " fmt=" + body[:1].hex()
+            except Exception as exc:  # noqa: BLE001
+                st += "; wire raises " + type(exc).__name__
+            out.append([name, variant, st])
+    json.dump(out, open(outfile, "w"))
+
+
 def load_facts():
     """gen/facts.json is rewritten by every check run (also concurrent ones of other properties): retry a torn read"""
     import time
@@ -676,8 +775,120 @@ def main():
             res.violate("c03-container-shared", "update() on a container changed the module-level catalogue list secs_streams_functions",
                         case, [c.__name__ for c in snapshot][:3] + ["…", len(snapshot)], [getattr(c, "__name__", "?") for c in now][-3:] + [len(now)])
         res.exhaustive_parts.append("container isolation: after update() on one container, all 134 (s, f) in three other default containers + the module-level list")
+
+        # the SAME container, used before and after `update()`: what was resolved/decoded earlier must not stick
+        allmod.secs_streams_functions[:] = snapshot      # start from the catalogue even if the containers above turned out to share it
+        cont_d = StreamsFunctions()
+        bodies = {}
+        for cls in classes:                                  # every pair resolved once before anything is registered
+            cont_d.function(cls._stream, cls._function)
+        for c in picks:
+            if c in usable:
+                obj = c(vg.node(c().data, "typed", [1]) if c._data_format is not None else None)
+                bodies[c] = obj.encode()
+                try:
+                    cont_d.decode(secsgem.hsms.HsmsMessage(secsgem.hsms.HsmsStreamFunctionHeader(78, c._stream, c._function, False, 0), bodies[c]))
+                except Exception:  # noqa: BLE001 - judged by the round-trip oracle above, here it only warms the container
+                    pass
+        cont_d.function(99, 1)
+        for sub in list(foreign.values()) + [extra]:
+            cont_d.update(sub)
+        case_d = {"container": "one container: lookup/decode, then update(), then lookup/decode again", **case}
+        res.count(("same-container", tuple(sorted(foreign))), sample={"op": "lookup, update(), lookup on one container", **case})
+        new_body = foreign[next(iter(foreign))](["mdln", "rev"]).encode()
+        for k, sub in list(foreign.items()) + [((99, 1), extra)]:
+            res.evaluations += 1
+            try:
+                got = cont_d.function(*k)
+            except Exception as exc:  # noqa: BLE001
+                got = exc
+            if got is not sub:
+                res.violate("c03-container-stale", f"after update() the container still resolves S{k[0]}F{k[1]} to what it resolved before",
+                            {**case_d, "stream": k[0], "function": k[1]}, sub.__name__, getattr(got, "__name__", repr(got))[:120])
+            if k != (99, 1):
+                try:
+                    back = cont_d.decode(secsgem.hsms.HsmsMessage(secsgem.hsms.HsmsStreamFunctionHeader(79, k[0], k[1], False, 0), new_body))
+                    ok, detail = type(back) is sub and back.get() == {"MDLN": "mdln", "SOFTREV": "rev"}, type(back).__name__
+                except Exception as exc:  # noqa: BLE001
+                    ok, detail = False, f"{type(exc).__name__}: {str(exc)[:100]}"
+                if not ok:
+                    res.violate("c03-container-stale", f"after update() a body of the registered S{k[0]}F{k[1]} is decoded with the class resolved before",
+                                {**case_d, "stream": k[0], "function": k[1]}, sub.__name__, detail)
+        for cls in classes:                                  # the rest is still the catalogue
+            k = (cls._stream, cls._function)
+            res.evaluations += 1
+            try:
+                still = cont_d.function(*k)
+            except Exception as exc:  # noqa: BLE001
+                still = exc
+            if k not in foreign and still is not cls:
+                res.violate("c03-container-stale", f"update() of other functions changed what S{k[0]}F{k[1]} resolves to", {**case_d, "stream": k[0], "function": k[1]})
+        for c in picks:                                      # registering the catalogue class again brings it back
+            cont_d.update(c)
+            res.evaluations += 1
+            try:
+                got = cont_d.function(c._stream, c._function)
+                back = cont_d.decode(secsgem.hsms.HsmsMessage(secsgem.hsms.HsmsStreamFunctionHeader(80, c._stream, c._function, False, 0), bodies[c])) if c in bodies else None
+                ok = got is c and (back is None or type(back) is c)
+            except Exception as exc:  # noqa: BLE001
+                ok, got = False, exc
+            if not ok:
+                res.violate("c03-container-stale", f"re-registering the catalogue class of S{c._stream}F{c._function} does not bring it back",
+                            {**case_d, "stream": c._stream, "function": c._function}, c.__name__, getattr(got, "__name__", repr(got))[:120])
+        res.exhaustive_parts.append("one container before/after update(): all 134 (s, f) resolved first, replacements for 4 of them + S99F1, lookup and decode again, re-registration")
     finally:
         allmod.secs_streams_functions[:] = snapshot   # whatever happened, leave the catalogue as it was for what follows
+
+    # ------------------------------------------------------------ order of use must not matter (fresh interpreter per order)
+    import subprocess  # noqa: PLC0415
+    import tempfile  # noqa: PLC0415
+    values = {}
+    restrict = {}
+    for cls in usable:
+        if cls._data_format is None:
+            continue
+        inst = cls()
+        values[cls.__name__] = [[v, enc_json(boundary_value(inst.data, v, cls.__name__))] for v in (0, 1, 2)]
+        lims = [x for x in (limited_text_count(leaf) for leaf in leaves_of(inst.data, [])) if x is not None]
+        restrict[cls.__name__] = min(lims) if lims else 10 ** 9
+    names = list(values)
+    orders = {"catalogue order": names, "reverse catalogue order": names[::-1],
+              "tightest length limit first": sorted(names, key=lambda n: restrict[n]),
+              "loosest length limit first": sorted(names, key=lambda n: -restrict[n]),
+              "seeded shuffle 1": rng.shuffle(names), "seeded shuffle 2": rng.shuffle(names)}
+    scratch = os.environ.get("VERIF_SCRATCH") or tempfile.mkdtemp(prefix="verif-c03-")
+    procs = []
+    for i, (oname, order) in enumerate(orders.items()):
+        jf, of = os.path.join(scratch, f"order{i}.job.json"), os.path.join(scratch, f"order{i}.out.json")
+        json.dump({"order": order, "values": values}, open(jf, "w"))
+        procs.append((oname, of, subprocess.Popen([sys.executable, os.path.abspath(__file__), "--order-worker", jf, of],
+                                                  stdout=subprocess.PIPE, stderr=subprocess.STDOUT)))
+    outcomes = {}
+    for oname, of, pr in procs:
+        try:
+            out, _ = pr.communicate(timeout=300)
+        except subprocess.TimeoutExpired:
+            pr.kill()
+            out = b"timeout"
+        if pr.returncode != 0 or not os.path.exists(of):
+            raise RuntimeError(f"order worker '{oname}' failed: {out[-400:]!r}")
+        for name, variant, st in json.load(open(of)):
+            outcomes.setdefault((name, variant), {})[oname] = st
+    vdesc = {0: "length-limited items at their limit", 1: "one below the limit", 2: "one above the limit (not conforming)"}
+    for (name, variant), by_order in sorted(outcomes.items()):
+        res.count(("order", name, variant), nontrivial=True, sample={"op": "order experiment", "function": name, "variant": vdesc[variant]} if len(res.samples) < 9 and variant == 0 else None)
+        res.evaluations += len(by_order) - 1
+        value = dec_json(dict((v, e) for v, e in values[name])[variant])
+        distinct = sorted(set(by_order.values()))
+        res.bump("order_experiment", vdesc[variant] + " -> " + ("same in all orders" if len(distinct) == 1 else "ORDER DEPENDENT"))
+        if len(distinct) > 1:
+            res.violate("c03-order-dependent", "the same value of the same function is treated differently depending on which functions were used before",
+                        {"function": name, "value": canon(value), "variant": vdesc[variant], "outcome_by_order": by_order}, distinct[0], distinct[1])
+        elif variant != 2 and not distinct[0].startswith("read back unchanged; wire ok"):
+            res.violate("c03-plain-readback" if distinct[0].startswith("read back") else "c03-constructor-rejects",
+                        "a structure-conforming value with length-limited items at (or one below) their limit is not read back unchanged / does not round-trip",
+                        {"function": name, "value": canon(value), "variant": vdesc[variant]}, "read back unchanged; wire ok", distinct[0])
+    res.exhaustive_parts.append(f"order experiment: {len(values)} functions x 3 boundary variants in {len(orders)} global orders, each order in a fresh interpreter")
 
     if a.replay:
         # verdict of a replay: only what the recorded run reported (its finding classes; its broken correspondence)
@@ -695,4 +906,7 @@ def main():
 
 
 if __name__ == "__main__":
-    main()
+    if len(sys.argv) == 4 and sys.argv[1] == "--order-worker":
+        order_worker(sys.argv[2], sys.argv[3])
+    else:
+        main()
